@@ -1,4 +1,5 @@
 """C02 C03 C05: the ordering skeleton of the coordinator (no schedule is enumerated)."""
+import re
 import core as C
 import modes as M
 from common import *  # noqa
@@ -562,6 +563,50 @@ def r03_5(ctx):
             ctx.ok("dedup key is the file parameter", site=ctx.site(ef, bb))
         else:
             ctx.violation(["dedup-key"], "the dedup set is keyed by something other than the file being scheduled", site=ctx.site(ef, bb))
+    # .. and the same holds wherever else a first-pass task is started (a `spawn_preprocess` / `start_file` helper called for a whole batch
+    # of scanned files): the test that lets a file through is the `insert` into the build set itself — per file, on the way to its spawn,
+    # or as the predicate of the `filter` the batch went through. A `contains` probe over the whole batch followed by inserts later lets
+    # two entries of one batch that name the same file both pass.
+    INS = "std::collections::HashSet::<T, S, A>::insert"
+    HAS = "std::collections::HashSet::<T, S, A>::contains"
+    for sb, sbb, st_, scl in spawner_bodies(ctx):
+        if scl is None or sb is ef or not calls_to(scl, ROLE["preprocess"]):
+            continue
+        agg = [st2 for bb2, si2, st2 in sb.stmts() if st2["k"] == "assign" and st2["rv"]["k"] == "aggregate" and st2["rv"]["agg"].get("def") == scl.name]
+        if not agg:
+            continue
+        ops = agg[0]["rv"]["ops"]
+        flag_ops = [o for o, u in zip(ops, scl.upvars) if u["ty"] == "bool"]
+        file_ops = [o for o, u in zip(ops, scl.upvars) if u["ty"] == ADT["AbsPath"]]
+        first = any(not (l.kind == "const" and C.op_const(l.data) == "false") for o in flag_ops for l in C.trace(sb, o)) if flag_ops else True
+        if not first or not file_ops:
+            continue
+        on_files = lambda t: has_field(C.trace(sb, t["args"][0], through_fields=True), "files")
+        ins_t = bool_call_edges(sb, lib, INS, True, arg_pred=on_files)
+        no_t = bool_call_edges(sb, lib, HAS, False, arg_pred=on_files)
+        ins_sites = [bb2 for bb2, t2 in calls_to(sb, INS) if on_files(t2)]
+        ok = bool(ins_t) and C.guarded(sb, sbb, ins_t)
+        if not ok and no_t and C.guarded(sb, sbb, no_t) and ins_sites and C.guarded(sb, sbb, out_edges(sb, ins_sites)):
+            # per file: not contained, then inserted, then spawned — with no loop head between the probe and the insert
+            ok = True
+        if not ok:
+            # the batch went through `filter(|f| files.insert(f.clone()))`
+            item = lambda tt: C.is_transparent(tt) or T.item_preserving(C.callee_name(tt)) or (C.callee_name(tt) or "").endswith(
+                ("Iterator>::next", "::into_iter", "::collect", "::iter", "::cloned", "::clone", "Iterator::filter"))
+            lv = C.trace(sb, file_ops[0], through_fields=True, transparent=lambda tt: item(tt) and C.callee_name(tt) != "std::iter::Iterator::filter")
+            for l in lv:
+                if l.kind == "call" and C.callee_name(l.data) == "std::iter::Iterator::filter" and len(l.data.get("arg_tys", [])) > 1:
+                    fc = lib.bodies.get(l.data["arg_tys"][1].get("closure") or "")
+                    if fc is not None:
+                        rl = C.trace(fc, {"l": 0, "p": []})
+                        if rl and all(x.kind == "call" and C.callee_name(x.data) == INS and not x.neg for x in rl):
+                            ok = True
+        if ok:
+            ctx.ok("first-pass spawn outside execute_file guarded by the insert into the build set|%s" % sb.name.rsplit("::", 1)[-1], site=ctx.site(sb, sbb))
+        else:
+            ctx.violation([sb.name, "no-dedup-batch"], "a first-pass task is started for a file without the insert into the build set deciding it "
+                          "(a `contains` probe over the batch, or an insert whose result is not tested): two entries of one batch that name the "
+                          "same file are both processed", site=ctx.site(sb, sbb))
 
 
 @rule("C03", "R03.6", floor=4)
@@ -1187,3 +1232,121 @@ def r03_9(ctx):
                       "counted in the total", site=ctx.site(ed, bad[0]), witness=C.witness(ed, bad[0], cut))
     else:
         ctx.ok("execute_directory always spawns the scan task", site=ctx.site(ed, sp[0][0]))
+
+
+@rule("C05", "R05.8", floor=1)
+def r05_8(ctx):
+    """every dependency a file reports is scheduled (or is already scheduled): the loop over the `deps` of a `HasDeps` result is left only
+    when the list is exhausted or by an error — an `Ok` way out of its body (`return Ok(())` where `continue` was meant, after the first
+    dependency that is already in the build) leaves the later dependencies unscheduled: their edges stay in the graph and a project without
+    any cycle is reported as circular"""
+    lib = ctx.lib
+    ri = body(ctx, "txtpp_run_internal")
+    if not ri:
+        return
+    pp_adt = ADT.get("PpResult")
+    heads = []
+    for bb, t in ri.calls():
+        if not C.callee_name(t).endswith("as std::iter::Iterator>::next") or not t["args"]:
+            continue
+        lv = C.trace(ri, t["args"][0], through_fields=True, transparent=lambda tt: C.is_transparent(tt) or T.item_preserving(C.callee_name(tt)))
+        if any(l.kind == "field" and any(o == pp_adt and v == "HasDeps" for (o, v, n) in C.pl_fields(l.data)) for l in lv):
+            heads.append((bb, t))
+    if not heads:
+        ctx.unverified("no loop over the dependency list of a HasDeps result found in the coordinator", site=ctx.site(ri, 0))
+        return
+    outer = [bb for bb, t in ri.calls() if C.callee_name(t) in (TRY_RECV, "std::sync::mpsc::Receiver::<T>::recv", "std::sync::mpsc::Receiver::<T>::recv_timeout")]
+    errs = set(err_sites(ri))
+    for hbb, ht in heads:
+        some_e = enum_edges(ri, lib, "std::option::Option", lambda vs: vs == {"Some"},
+                            src_pred=lambda c, hbb=hbb: any(l.kind == "call" and l.bb == hbb for l in c.src))
+        if not some_e:
+            ctx.unverified("the Some edge of the dependency loop was not found", site=ctx.site(ri, hbb))
+            continue
+        reach = C.after_edges(ri, some_e, cut=out_edges(ri, [hbb]))
+        oks = set(ok_sites(ri))
+        esc = [bb for bb in reach if bb in outer] + [bb for bb in reach if bb in oks]
+        if esc:
+            ctx.violation([ri.name, "dependency-loop-left-early"], "the loop that schedules a file's dependencies can be left from inside its body "
+                          "without an error: the dependencies after that point are never scheduled, and the file waits for them until the run "
+                          "reports a circular dependency", site=ctx.site(ri, esc[0]))
+        else:
+            ctx.ok("the dependency loop is left only when exhausted or by an error", site=ctx.site(ri, hbb))
+
+
+def _counted_is_spawned(ctx):
+    lib = ctx.lib
+    ri = body(ctx, "txtpp_run_internal")
+    if not ri:
+        return
+    ADD = ROLE.get("progress_add_total") or "txtpp::core::util::progress::Progress::add_total"
+    item = lambda tt: C.is_transparent(tt) or T.item_preserving(C.callee_name(tt)) or (C.callee_name(tt) or "").endswith(("::into_iter", "::iter", "::iter_mut"))
+
+    def coll_id(b, op):
+        out = set()
+        for l in C.trace(b, op, through_fields=True, transparent=item):
+            if l.kind == "field":
+                names = [n for (o, v, n) in C.pl_fields(l.data)]
+                if names and names[-1] and not str(names[-1]).isdigit():      # (payload positions `.0` / `.1` of enum variants name nothing)
+                    out.add(("field", names[-1]))
+            elif l.kind == "call" and (C.callee_name(l.data) or "").endswith(("::collect", "::to_vec", "Vec::<T>::new", "::with_capacity")):
+                out.add(("call", l.bb))
+        return frozenset(out)
+    n = 0
+    for B in [ri]:
+        spawns = [bb for bb, t in B.calls() if C.callee_name(t) == POOL_EXEC or ROLE["execute_directory"] in C.callee_names(t)]
+        for abb, at in calls_to(B, ADD):
+            if len(at["args"]) < 2:
+                continue
+            lens = [l for l in C.trace(B, at["args"][1]) if l.kind == "call" and re.search(r"::len$", C.callee_name(l.data) or "")]
+            # `a.len() + b.len()`: the operands of the sum
+            work = [l for l in C.trace(B, at["args"][1]) if l.kind == "binop"]
+            seen_b = set()
+            while work:
+                l = work.pop()
+                if id(l.data) in seen_b:
+                    continue
+                seen_b.add(id(l.data))
+                for o in (l.data["a"], l.data["b"]):
+                    for x in C.trace(B, o):
+                        if x.kind == "binop":
+                            work.append(x)
+                        elif x.kind == "call" and re.search(r"::len$", C.callee_name(x.data) or ""):
+                            lens.append(x)
+            for ln in lens:
+                cid = coll_id(B, ln.data["args"][0])
+                if not cid:
+                    continue
+                heads = [(hbb, ht) for hbb, ht in B.calls() if C.callee_name(ht).endswith("as std::iter::Iterator>::next") and ht["args"]
+                         and cid & coll_id(B, ht["args"][0]) and hbb in B.reachable(abb)]
+                if not heads:
+                    ctx.unverified("a collection whose length is added to the total is not iterated afterwards in a recognisable loop", site=ctx.site(B, abb))
+                    continue
+                for hbb, ht in heads:
+                    n += 1
+                    some_e = enum_edges(B, lib, "std::option::Option", lambda vs: vs == {"Some"},
+                                        src_pred=lambda c, hbb=hbb: any(l.kind == "call" and l.bb == hbb for l in c.src))
+                    reach = C.after_edges(B, some_e, cut=out_edges(B, spawns)) if some_e else set()
+                    errs = set(err_sites(B))
+                    if hbb in reach:
+                        ctx.violation([B.name, "counted-not-spawned"], "every element of this collection was added to the progress total, but an iteration "
+                                      "of the loop over it can go on to the next element without starting a task (an element that is already "
+                                      "in the build is skipped): the total can never be reached and the run never ends", site=ctx.site(B, hbb))
+                    else:
+                        ctx.ok("every counted element starts a task", site=ctx.site(B, hbb))
+    if n == 0:
+        ctx.ok("no collection is counted in bulk except through execute_directory / per file", site=ctx.site(ri, 0))
+
+
+@rule("C03", "R03.12", floor=1)
+def r03_12(ctx):
+    """(= C18 R18.7) every run terminates: no file or directory is counted in the progress total without a task being started for it"""
+    _counted_is_spawned(ctx)
+
+
+@rule("C02", "R02.15", floor=1)
+def r02_15(ctx):
+    """a dependency is complete when its depender is released: a file is first-passed once (= C03 R03.5, including batches of scanned or
+    named files) — of two tasks for the same file the first to finish marks it done and releases its dependers while the second has
+    truncated the output again and is still writing it"""
+    r03_5(ctx)
